@@ -433,8 +433,21 @@ def _pat_ok(t):
     return z3.is_app(t) and t.decl().kind() == z3.Z3_OP_UNINTERPRETED and t.num_args() > 0 and _clean(t)
 
 
+_PF_CACHE = {}
+
+
 def perm_formula(p, g):
     """forall i<n: 0<=p[i]<n and g[p[i]]=i ; forall v<n: 0<=g[v]<n and p[g[v]]=v."""
+    F_, G_ = p.meta.get("fun"), p.meta.get("gfun")
+    if F_ is not None and G_ is not None and p.meta.get("ginv") is g:
+        key = (F_.get_id(), G_.get_id(), p.n.get_id())
+        if key not in _PF_CACHE:
+            _PF_CACHE[key] = _perm_formula(p, g)
+        return _PF_CACHE[key]  # one AST per sequence: the formula is recognised wherever it is used
+    return _perm_formula(p, g)
+
+
+def _perm_formula(p, g):
     n = p.n
     i, v = fresh("pi"), fresh("pv")
     pi = Z(p.at(i))
